@@ -285,6 +285,9 @@ func (e *Enc) eval(sx *Sx, env *evalEnv) tv {
 			e.unsupp("deref: %s is not a pointer", args[0])
 			return x
 		}
+		if srt := e.sortOf(pt.Elem()); (srt == "Ref" || srt == "Slice") && len(env.bound) == 0 {
+			e.loadedRefFacts(env.heap, cellKey(pt.Elem()), srt, x.v.T)
+		}
 		lv := e.load(env.heap, x.v.T, nil, pt.Elem())
 		if len(env.bound) == 0 {
 			e.sideFact(env, e.typeFacts(lv, pt.Elem()))
@@ -337,15 +340,13 @@ func (e *Enc) eval(sx *Sx, env *evalEnv) tv {
 		body := e.eval(args[1], &n)
 		return tv{Val{fmt.Sprintf("(%s (%s) %s)", h, strings.Join(bs, " "), body.v.T), "Bool"}, nil}
 	case "let":
+		// bindings are substituted (side facts emitted while evaluating the body must not mention a bound name)
 		n := env
-		var bs []string
 		for _, b := range args[0].List {
 			x := e.eval(b.List[1], env)
-			n = n.with(b.List[0].Atom, binding{Val{b.List[0].Atom, x.v.S}, x.t})
-			bs = append(bs, fmt.Sprintf("(%s %s)", b.List[0].Atom, x.v.T))
+			n = n.with(b.List[0].Atom, binding{x.v, x.t})
 		}
-		body := e.eval(args[1], n)
-		return tv{Val{fmt.Sprintf("(let (%s) %s)", strings.Join(bs, " "), body.v.T), body.v.S}, body.t}
+		return e.eval(args[1], n)
 	case "H":
 		key := strings.Trim(args[0].Atom, "\"")
 		srt, ok := e.heapSort[key]
@@ -371,6 +372,33 @@ func (e *Enc) eval(sx *Sx, env *evalEnv) tv {
 		x := e.eval(args[0], env)
 		t := e.w.lookupType(args[1].Atom)
 		return tv{Val{app("unboxRef", x.v.T), "Ref"}, t}
+	case "bytes":
+		// (bytes e): content of byte slice e as a byte-string term; (bytes e K): the same, read from the byte cells, for
+		// slices of at most K bytes (array-mode bridge)
+		x := e.autoDeref(e.eval(args[0], env), env)
+		if x.v.S == "Str" {
+			e.needB = true
+			return tv{Val{app("bstr", x.v.T), "B"}, nil}
+		}
+		if x.v.S != "Slice" {
+			e.unsupp("bytes: %s is not a byte slice", args[0])
+			return tv{Val{"beps", "B"}, nil}
+		}
+		if len(args) > 1 {
+			k, _ := strconv.Atoi(args[1].Atom)
+			return tv{Val{e.bytesExpand(env.heap, x.v.T, k), "B"}, nil}
+		}
+		if !e.token && env.owner == e.name && e.ct != nil && e.ct.Opts["bytes-bound"] != "" {
+			// inside an array-mode function the content of a (short) slice is read from the byte cells: this is the
+			// definition of the abstraction that callers see as (bytes result)
+			k, _ := strconv.Atoi(e.ct.Opts["bytes-bound"])
+			return tv{Val{e.bytesExpand(env.heap, x.v.T, k), "B"}, nil}
+		}
+		return tv{Val{e.tokBytes(env.heap, x.v.T), "B"}, nil}
+	case "rem":
+		e.needB = true
+		x := e.eval(args[0], env)
+		return tv{Val{app("select", e.heapGet(env.heap, "$rem", "B"), x.v.T), "B"}, nil}
 	case "cast":
 		// (cast <go type> e): give an untyped reference its Go type so that fields can be selected
 		t := e.w.lookupType(args[0].Atom)
@@ -457,6 +485,10 @@ func (e *Enc) eval(sx *Sx, env *evalEnv) tv {
 	case "sarr", "ebase", "epar":
 		return tv{Val{app(h, ts...), "Ref"}, nil}
 	}
+	if srt, ok := bOps[h]; ok {
+		e.needB = true
+		return tv{Val{app(h, ts...), srt}, nil}
+	}
 	// user-declared SMT function from `//@ smt` lines: sort unknown -> look up in raw declarations
 	if srt, ok := e.rawFunSort(h); ok {
 		return tv{Val{app(h, ts...), srt}, nil}
@@ -495,6 +527,10 @@ func (e *Enc) evalAtom(a string, env *evalEnv) tv {
 	}
 	if a == "nil" {
 		return tv{Val{"nil", "Ref"}, nil}
+	}
+	if a == "beps" {
+		e.needB = true
+		return tv{Val{"beps", "B"}, nil}
 	}
 	if a == "nilslice" || a == "emptystr" {
 		return tv{Val{a, map[string]string{"nilslice": "Slice", "emptystr": "Str"}[a]}, nil}
@@ -565,6 +601,9 @@ func (e *Enc) autoDeref(x tv, env *evalEnv) tv {
 		if pt, ok := under(x.t).(*types.Pointer); ok {
 			switch under(pt.Elem()).(type) {
 			case *types.Slice, *types.Basic:
+				if srt := e.sortOf(pt.Elem()); (srt == "Ref" || srt == "Slice") && len(env.bound) == 0 {
+					e.loadedRefFacts(env.heap, cellKey(pt.Elem()), srt, x.v.T)
+				}
 				lv := e.load(env.heap, x.v.T, nil, pt.Elem())
 				if len(env.bound) == 0 {
 					e.sideFact(env, e.typeFacts(lv, pt.Elem()))
@@ -642,6 +681,9 @@ func (e *Enc) evalSpec(name string, args []*Sx, env *evalEnv) tv {
 		e.unsupp("spec %s: %d arguments, want %d", name, len(args), len(sf.Params))
 		return tv{Val{"true", "Bool"}, nil}
 	}
+	if sf.FoldOp != "" {
+		return e.evalFold(sf, args, env)
+	}
 	if sf.Def != nil {
 		// defined spec functions are expanded in place (macro): their heap reads then see the caller's frames
 		n := *env
@@ -673,6 +715,59 @@ func (e *Enc) evalSpec(name string, args []*Sx, env *evalEnv) tv {
 	return tv{Val{app("spec_"+name, ts...), sf.Ret}, nil}
 }
 
+// evalFold: F(H, args, k) for a fold spec, plus the unfolding of F at k as a side fact.
+func (e *Enc) evalFold(sf *SpecFn, args []*Sx, env *evalEnv) tv {
+	e.useSpec(sf)
+	var hs, as []string
+	for _, k := range sf.Reads {
+		hs = append(hs, e.heapGet(env.heap, k, e.specHeapSort(k)))
+	}
+	n := *env
+	n.names = map[string]binding{}
+	for k, b := range env.names {
+		n.names[k] = b
+	}
+	for i, p := range sf.Params {
+		a := e.eval(args[i], env)
+		_, gt := e.specParamType(p.Sort)
+		if gt == nil {
+			gt = a.t
+		}
+		n.names[p.Name] = binding{a.v, gt}
+		as = append(as, a.v.T)
+	}
+	kT := as[len(as)-1]
+	term := app("spec_"+sf.Name, append(append([]string{}, hs...), as...)...)
+	memo := term
+	if e.foldDone == nil {
+		e.foldDone = map[string]bool{}
+	}
+	if !e.foldDone[memo] {
+		e.foldDone[memo] = true
+		prevArgs := append(append([]string{}, hs...), as[:len(as)-1]...)
+		prevArgs = append(prevArgs, app("-", kT, "1"))
+		n.names["j"] = binding{Val{app("-", kT, "1"), "Int"}, types.Typ[types.Int]}
+		n.owner = "spec " + sf.Name
+		saved := e.readTrace
+		e.readTrace = map[string]bool{}
+		el := e.eval(sf.Def, &n)
+		for k := range e.readTrace {
+			ok := false
+			for _, r := range sf.Reads {
+				if r == k {
+					ok = true
+				}
+			}
+			if !ok && k != "$A" {
+				e.unsupp("fold spec %s: element reads heap %s which is not in its reads list", sf.Name, k)
+			}
+		}
+		e.readTrace = saved
+		e.sideFact(env, app("=", term, fmt.Sprintf("(ite (<= %s 0) %s (%s %s %s))", kT, sf.FoldUnit, sf.FoldOp, app("spec_"+sf.Name, prevArgs...), el.v.T)))
+	}
+	return tv{Val{term, sf.Ret}, nil}
+}
+
 // specHeapSort: "F:bt.Tx.Inputs:Slice" style keys carry their sort after the last colon when it is not yet known.
 func (e *Enc) specHeapSort(k string) string {
 	if s, ok := e.heapSort[k]; ok {
@@ -696,10 +791,10 @@ func (e *Enc) useSpec(sf *SpecFn) {
 	var ps []string
 	var pnames []string
 	for _, k := range sf.Reads {
-		ps = append(ps, "(Array Ref "+e.specHeapSort(k)+")")
+		ps = append(ps, arrSort(k, e.specHeapSort(k)))
 		pnames = append(pnames, "h_"+sanitize(k))
 	}
-	if sf.Def == nil {
+	if sf.Def == nil || sf.FoldOp != "" {
 		for _, p := range sf.Params {
 			srt, _ := e.specParamType(p.Sort)
 			ps = append(ps, srt)
